@@ -32,7 +32,7 @@ class BuiltinMixin(object):
       st.assume(t >= 0)
       x = z3.Const(fresh_name('e'), U)
       pred = as_setpred(v, st)
-      st.assume((t == 0) == z3.Not(z3.Exists([x], pred(x))))
+      st.assume((t == 0) == z3.Not(ExistsT([x], pred(x))))
       return VInt(t)
     if isinstance(v, VRef) and v.ty.kind in ('any', 'opt'):
       return self.pure_app('len', [v], 'int', st)
@@ -85,16 +85,14 @@ class BuiltinMixin(object):
           yield st2, Exc('AttributeError')
     return gen()
 
-  def bi_set(self, args, kw, st):
+  def bi_set(self, args, kw, st, cls_name=None):
     if not args:
-      return ops.new_set(st, lambda e: z3.BoolVal(False))
+      return ops.new_set(st, lambda e: z3.BoolVal(False), None, cls_name)
     src = args[0]
-    return ops.new_set(st, as_setpred(src, st), Ty('set', (elem_type(src),)))
+    return ops.new_set(st, as_setpred(src, st), Ty('set', (elem_type(src),)), cls_name)
 
   def bi_frozenset(self, args, kw, st):
-    r = self.bi_set(args, kw, st)
-    st.assume(typeof(r.t) == cls_const('frozenset'))
-    return r
+    return self.bi_set(args, kw, st, 'frozenset')
 
   def bi_dict(self, args, kw, st):
     if not args and not kw:
@@ -119,7 +117,8 @@ class BuiltinMixin(object):
       return ops.new_list(st, [to_u(i, st) for i in src.items], Ty(kind, (ANY,)))
     if isinstance(src, VRef) and src.ty.kind in ('list', 'vtuple'):
       h = st.heap
-      return ops.new_list_sym(st, h.len(src.t), lambda i: h.item(src.t, i), Ty(kind, (src.ty.elem,)))
+      return ops.new_list_sym(st, h.len(src.t), lambda i: h.item(src.t, i), Ty(kind, (src.ty.elem,)),
+                              mempred=lambda e: h.lmem(src.t, e))
     # a set (or set expression): an enumeration without repetition
     pred = as_setpred(src, st)
     ety = elem_type(src)
@@ -129,12 +128,12 @@ class BuiltinMixin(object):
     ln = fresh('enumlen', I)
     itf = ufn(fresh_name('enumitem'), I, U)
     idx = ufn(fresh_name('enumidx'), U, I)
-    r = ops.new_list_sym(st, ln, lambda i: itf(i), Ty(kind, (ety,)))
+    r = ops.new_list_sym(st, ln, lambda i: itf(i), Ty(kind, (ety,)), mempred=pred)
     i = z3.Const(fresh_name('i'), I)
     x = z3.Const(fresh_name('x'), U)
     st.assume(ln >= 0)
-    st.assume(z3.ForAll([i], z3.Implies(z3.And(i >= 0, i < ln), z3.And(pred(itf(i)), idx(itf(i)) == i))))
-    st.assume(z3.ForAll([x], z3.Implies(pred(x), z3.And(idx(x) >= 0, idx(x) < ln, itf(idx(x)) == x))))
+    st.assume(ForAllT([i], z3.Implies(z3.And(i >= 0, i < ln), z3.And(pred(itf(i)), idx(itf(i)) == i))))
+    st.assume(ForAllT([x], z3.Implies(pred(x), z3.And(idx(x) >= 0, idx(x) < ln, itf(idx(x)) == x))))
     if isinstance(src, VRef) and src.ty.kind in ('set', 'dict'):
       st.assume(ln == st.heap.get('card')(src.t))
     r.distinct = True
@@ -150,13 +149,13 @@ class BuiltinMixin(object):
     itf = ufn(fresh_name('sorteditem'), I, U)
     perm = ufn(fresh_name('perm'), I, I)      # result index -> source index (bijection)
     inv = ufn(fresh_name('perminv'), I, I)
-    r = ops.new_list_sym(st, n_, lambda i: itf(i), Ty('list', (ety,)))
+    r = ops.new_list_sym(st, n_, lambda i: itf(i), Ty('list', (ety,)), mempred=lambda e: h.lmem(seq.t, e))
     i = z3.Const(fresh_name('i'), I)
     j = z3.Const(fresh_name('j'), I)
     inr = lambda k: z3.And(k >= 0, k < n_)
-    st.assume(z3.ForAll([i], z3.Implies(inr(i), z3.And(inr(perm(i)), inv(perm(i)) == i,
+    st.assume(ForAllT([i], z3.Implies(inr(i), z3.And(inr(perm(i)), inv(perm(i)) == i,
                                                       itf(i) == h.item(seq.t, perm(i))))))
-    st.assume(z3.ForAll([i], z3.Implies(inr(i), z3.And(inr(inv(i)), perm(inv(i)) == i))))
+    st.assume(ForAllT([i], z3.Implies(inr(i), z3.And(inr(inv(i)), perm(inv(i)) == i))))
     # sortedness w.r.t. the key
     cx = self.spec_ctx(st)
 
@@ -171,7 +170,7 @@ class BuiltinMixin(object):
         return self.sv(keyf.node.body, SpecCtx(env, st.heap, st.pc, None, keyf.modinfo))
       raise Unsupported('sorted key must be a lambda')
     ka, kb = key_of(itf(i)), key_of(itf(j))
-    st.assume(z3.ForAll([i, j], z3.Implies(z3.And(inr(i), inr(j), i < j), self.key_le(ka, kb, st))))
+    st.assume(ForAllT([i, j], z3.Implies(z3.And(inr(i), inr(j), i < j), self.key_le(ka, kb, st))))
     r.sorted_key = key_of
     return r
 
@@ -296,9 +295,8 @@ class BuiltinMixin(object):
         cx.env = env2
         g2 = ast.comprehension(target=g.target, iter=ast.Name('__it', ast.Load()), ifs=g.ifs, is_async=0)
         e = self.spec_setcomp(ast.SetComp(elt=gen.elt, generators=[g2]), cx)
-        r = ops.new_set(st1, e.pred, Ty('set', (e.ty.elem if e.ty.kind == 'set' else ANY,)))
-        if name == 'frozenset':
-          st1.assume(typeof(r.t) == cls_const('frozenset'))
+        r = ops.new_set(st1, e.pred, Ty('set', (e.ty.elem if e.ty.kind == 'set' else ANY,)),
+                        'frozenset' if name == 'frozenset' else None)
         yield st1, r
       elif name in ('tuple', 'list'):
         yield st1, self.comp_to_seq(gen.elt, g, src, st1, 'tuple' if name == 'tuple' else 'list')
